@@ -139,6 +139,7 @@ type Exec struct {
 	fresh       int
 	Defs        []*term.Term // definitional constraints of fresh witness variables (always conjoined)
 	RawOutcomes int
+	digitMemo   map[string]witnessDigits
 	Events      []Event
 	randN       int
 	Trace       bool
@@ -174,7 +175,7 @@ func (ex *Exec) feasible(g *term.Term, useSolver bool) bool {
 	if g.IsTrue() {
 		return true
 	}
-	if factsOf(g).decide(g) == 0 {
+	if f := factsOf(g); !f.consistent() || f.decide(g) == 0 {
 		return false
 	}
 	// conjunct-wise decision under the facts of the whole guard
